@@ -139,6 +139,20 @@ func (e *Engine) cmdFuncs(names []string) int {
 	}
 	names = expanded
 	for _, n := range names {
+		if strings.HasPrefix(n, "lemma:") {
+			l := e.lemma(n[6:])
+			if l == nil {
+				fmt.Printf("ERROR unknown lemma %s\n", n)
+				continue
+			}
+			fc, err := e.lemmaCtx(l)
+			if err != nil {
+				fmt.Printf("ERROR %s: %v\n", n, err)
+				continue
+			}
+			all = append(all, fc.obls...)
+			continue
+		}
 		fc, err := e.genFunc(n)
 		if err != nil {
 			fmt.Printf("ERROR %s: %v\n", n, err)
